@@ -46,6 +46,7 @@ func TestC14_ReadOrNot(t *testing.T) {
 		cl.labelIf(exact, "variant:exact")
 		n := rapid.IntRange(2, 30).Draw(t, "steps")
 		reads, mutAfterRead, readBuffered := 0, 0, false
+		lastReadBufLen := 0 // (layout hook) length of the positive store's buffer at the last read
 		for i := 0; i < n; i++ {
 			if rapid.IntRange(0, 3).Draw(t, "doread") == 0 {
 				kind := rapid.SampledFrom([]string{"observe", "quantile", "foreach-stop", "toproto", "encodeproto", "encode", "copy", "merge-argument", "changemapping", "store-reads", "sum"}).Draw(t, "read")
@@ -53,6 +54,9 @@ func TestC14_ReadOrNot(t *testing.T) {
 				cl.label("read:" + kind)
 				if layout.Enabled && (layout.Of(a.s.Pos()).BufferLen > 0 || layout.Of(a.s.Neg()).BufferLen > 0) {
 					readBuffered = true
+				}
+				if layout.Enabled {
+					lastReadBufLen = layout.Of(a.s.Pos()).BufferLen
 				}
 				u := a
 				switch kind {
@@ -132,6 +136,33 @@ func TestC14_ReadOrNot(t *testing.T) {
 				mutAfterRead++
 			}
 			cl.label("op:" + op.Kind)
+			// a buffer that the read saw at length L, that a mutation has since emptied or shortened, is refilled to
+			// exactly L with unit values in descending order and no read in between: anything a read remembers about
+			// the buffer "as long as its length is the same" is wrong now
+			if layout.Enabled && prof.pos && c.pos.Name == "paginated" {
+				if cur := layout.Of(a.s.Pos()).BufferLen; lastReadBufLen > 1 && cur < lastReadBufLen && lastReadBufLen-cur <= 150 && bud.Fits(a.k.total()+float64(lastReadBufLen-cur)+200) && rapid.Bool().Draw(t, "refill") {
+					centre := d.lo + (d.hi-d.lo)/2
+					var vs []float64
+					for k := lastReadBufLen - cur; k > 0; k-- {
+						if i := centre + 33*k; i > d.minIdx && i < d.maxIdx {
+							vs = append(vs, d.clamp(m.Value(i)))
+						}
+					}
+					if len(vs) == lastReadBufLen-cur {
+						rop := kop{Kind: "burst", Burst: vs}
+						cl.logf("refill %s", rop)
+						if msg := a.apply(rop); msg != "" {
+							t.Fatalf("C14 read-or-not %s after %s: %s", c, rop, msg)
+						}
+						if msg := b.apply(rop); msg != "" {
+							t.Fatalf("C14 read-or-not %s (unread twin) after %s: %s", c, rop, msg)
+						}
+						if layout.Of(a.s.Pos()).BufferLen == lastReadBufLen {
+							cl.label("buffer-refilled-to-the-length-a-read-saw")
+						}
+					}
+				}
+			}
 		}
 		// the end: both are looked at for the first time together
 		oa, ob := a.fullObs(a.s, a.k, c), b.fullObs(b.s, b.k, c)
